@@ -4,7 +4,9 @@
    cmax the implementation's cached "maximum bonds per atom" following exactly the code's
    update rule (recomputed by construct / add of a new bond / index / merge; kept by the
    removals, offset and the strip operations; max of the operands for concatenation).
-   Apply(S, op, a) = [n, B, cmax, oc, out] is total; oc in {"ok","IndexError","Rejected"}. *)
+   Apply(S, op, a) = [n, B, cmax, oc, out] is total; oc in {"ok","IndexError","Rejected"}.
+   Arguments may carry the FORM in which they are handed over (see "index forms"); Apply reads
+   the values only, so the meaning of a call is independent of the form by construction. *)
 EXTENDS BondOps, TLC
 
 Types == {0, 1, 2, 3, 4, 5, 6, 7, 8, 9}
@@ -22,6 +24,89 @@ Views(S) ==
    cnt |-> Cardinality(S.B)]
 
 Other(a) == [n |-> a[1], B |-> ConstructSet(a[2], a[1])]
+
+(* ---------------------------------------------------------------- index forms
+   The FORM of an argument is the shape in which the caller hands it over; it is part of the
+   call, never of its meaning (Apply reads the value only):
+     integer           a Python int or a numpy integer scalar of some width and sign
+     index array       a Python list, an integer ndarray of some dtype, byte order ("b.." =
+                       big-endian) or layout ("..s" = strided, non-contiguous view)
+     boolean mask      a bool ndarray, a list of bools, a strided bool view
+     slice             bounds that are Python ints or numpy integers
+     constructor rows  the dtype / byte order / memory layout of the (k, 3) bond array
+                       ("..f" = Fortran order, "..s" = strided view)
+   An index object is <<kind, payload>> or <<kind, payload, form>> (PyIndex.Resolve reads the
+   first two components).  Scalar calls carry their forms as a trailing component:
+     add <<i, j, t, <<fi, fj>>>>   remove <<i, j, <<fi, fj>>>>   contains <<i, j, <<fi, fj>>>>
+     remove_to <<i, f>>   get_bonds <<i, f>>   offset <<k, f>>   construct <<n, rows, f>>
+   Dom_*Form say which forms can hold which values (an unsigned form holds no negative value). *)
+ScalarForms     == {"py", "i8", "i16", "i32", "i64", "u8", "u16", "u32", "u64"}
+ArrayForms      == {"list", "i8", "i16", "i32", "i64", "u8", "u16", "u32", "u64",
+                    "bi16", "bi32", "bi64", "bu16", "bu64", "i64s", "u8s"}
+BoolMaskForms   == {"np", "list", "strided"}
+SliceBoundForms == {"py", "np"}
+RowsForms       == {"i8", "i16", "i32", "i64", "u8", "u16", "u32", "u64", "bi32", "bi64", "i64f", "i32s"}
+FormUnsigned(f) == f \in {"u8", "u16", "u32", "u64", "bu16", "bu64", "u8s"}
+FormBigEndian(f) == f \in {"bi16", "bi32", "bi64", "bu16", "bu64"}
+
+Dom_ScalarForm(k, f) == f \in ScalarForms /\ (FormUnsigned(f) => k >= 0)
+Dom_RowsForm(rows, f) ==
+  f \in RowsForms /\ (FormUnsigned(f) => \A k \in DOMAIN rows : rows[k][1] >= 0 /\ rows[k][2] >= 0)
+Dom_IdxForm(idx) ==
+  /\ Len(idx) = 3
+  /\ idx[3] \in (CASE idx[1] = "int" -> ScalarForms [] idx[1] = "arr" -> ArrayForms
+                   [] idx[1] = "mask" -> BoolMaskForms [] idx[1] = "slice" -> SliceBoundForms
+                   [] OTHER -> {"py"})
+  /\ (idx[1] \in {"int", "arr"} /\ FormUnsigned(idx[3]) => \A i \in DOMAIN idx[2] : idx[2][i] >= 0)
+\* every index object of X in every admissible form of the given sets
+InForms(X, FI, FA, FM, FS) ==
+  {y \in UNION {{<<x[1], x[2], f>> : f \in (CASE x[1] = "int" -> FI [] x[1] = "arr" -> FA
+                                                [] x[1] = "mask" -> FM [] x[1] = "slice" -> FS
+                                                [] OTHER -> {"py"})} : x \in X} : Dom_IdxForm(y)}
+\* pairs of forms for calls with two atom indices: both alike, or one of them a Python int
+FormPairs(F) == {<<f, f>> : f \in F} \cup {<<"py", f>> : f \in F} \cup {<<f, "py">> : f \in F}
+
+(* ---------------------------------------------------------------- equality
+   Equality is a view of the reference (atom count, mapping): two lists are equal exactly when
+   they have the same atom count and the same mapping; anything that is not a bond list is
+   unequal.  op "eq", a = <<kind, payload>>:
+     <<"list", <<m, rows>>>>    the list constructed from (m, rows)
+     <<"obj", <<code>>>>        an object that is not a bond list (the driver's table of codes)
+   and lists described RELATIVE to the current one, differing from it in one aspect at most:
+     <<"same", <<>>>>           its own bonds, in canonical order
+     <<"rev", <<>>>>            rows in reverse order, pairs reversed, first index negative
+     <<"natoms", <<d>>>>        the same bonds over n + d atoms
+     <<"retype", <<k, t>>>>     the k-th bond (canonical order) has type t
+     <<"drop", <<k>>>>          the k-th bond is missing
+     <<"dup", <<k, t>>>>        the k-th bond is given once more, with type t, at the end
+     <<"extra", <<i, j, t>>>>   one more bond i-j of type t
+   out = [other |-> <<m, rows>> (the constructor input of the compared list), eq |-> BOOLEAN]. *)
+BondBefore(b, c) == b[1] < c[1] \/ (b[1] = c[1] /\ b[2] < c[2])
+SortedRows(B) == SetToSortSeq(B, BondBefore)
+WithoutAt(s, k) == [i \in 1..(Len(s) - 1) |-> IF i < k THEN s[i] ELSE s[i + 1]]
+
+EqRelKinds == {"same", "rev", "natoms", "retype", "drop", "dup", "extra"}
+Dom_EqArg(S, a) ==
+  LET p == a[2]  nb == Cardinality(S.B) IN
+  CASE a[1] = "list"   -> RowsInRange(p[2], p[1])
+    [] a[1] = "obj"    -> TRUE
+    [] a[1] \in {"same", "rev"} -> TRUE
+    [] a[1] = "natoms" -> S.n + p[1] >= 0 /\ \A b \in S.B : b[2] < S.n + p[1]
+    [] a[1] \in {"retype", "dup"} -> p[1] \in 1..nb
+    [] a[1] = "drop"   -> p[1] \in 1..nb
+    [] a[1] = "extra"  -> 0 <= p[1] /\ p[1] < p[2] /\ p[2] < S.n /\ ~HasPair(S.B, p[1], p[2])
+EqOther(S, a) ==          \* constructor input <<m, rows>> of the list the current one is compared with
+  LET p == a[2]  rows == SortedRows(S.B) IN
+  CASE a[1] = "list"   -> <<p[1], p[2]>>
+    [] a[1] = "same"   -> <<S.n, rows>>
+    [] a[1] = "rev"    -> <<S.n, [k \in DOMAIN rows |->
+                                    LET b == rows[Len(rows) + 1 - k] IN <<b[2] - S.n, b[1], b[3]>>]>>
+    [] a[1] = "natoms" -> <<S.n + p[1], rows>>
+    [] a[1] = "retype" -> <<S.n, [rows EXCEPT ![p[1]] = <<rows[p[1]][1], rows[p[1]][2], p[2]>>]>>
+    [] a[1] = "drop"   -> <<S.n, WithoutAt(rows, p[1])>>
+    [] a[1] = "dup"    -> <<S.n, Append(rows, <<rows[p[1]][2], rows[p[1]][1], p[2]>>)>>
+    [] a[1] = "extra"  -> <<S.n, Append(rows, <<p[1], p[2], p[3]>>)>>
+SameList(S, m, rows) == m = S.n /\ ConstructSet(rows, m) = S.B
 
 RECURSIVE Apply(_, _, _)
 Apply(S, op, a) ==
@@ -77,6 +162,13 @@ Apply(S, op, a) ==
                     [] a[1] = "concat" -> Apply(S, "concat", a[2])
                     [] a[1] = "copy" -> Apply(S, "copy", <<>>)
          IN IF d.oc = "ok" THEN St(S.n, S.B, S.cmax, "ok", "independent") ELSE Fail(S, d.oc)
+    \* ==, != (both operand orders) against another list or a foreign object: a refused
+    \* construction of the other list is refused like the constructor
+    [] op = "eq" ->
+         IF a[1] = "obj" THEN St(S.n, S.B, S.cmax, "ok", [other |-> <<>>, eq |-> FALSE])
+         ELSE IF ~Dom_EqArg(S, a) THEN Fail(S, IF a[1] = "list" THEN "IndexError" ELSE "Rejected")
+         ELSE LET o == EqOther(S, a) IN
+              St(S.n, S.B, S.cmax, "ok", [other |-> o, eq |-> SameList(S, o[1], o[2])])
     [] op = "views" -> St(S.n, S.B, S.cmax, "ok", Views(S))
     [] op = "copy" -> St(S.n, S.B, S.cmax, "ok", <<>>)
 =============================================================================
